@@ -61,3 +61,26 @@ def axes(a):
         if g != 0:
             bad.append(('equator', lon, g))
     return bool(bad), 'non-zero convergence on an axis: %s' % bad
+
+
+def sequence(a):
+    """one ellipsoid, several projections in sequence (both orders): each geo2grid / grid2geo call reports the scale factor of the projection
+    requested in that call (exact scale factors from the exact TM oracle)"""
+    import geodepy.constants as gc
+    from geodepy.convert import geo2grid, grid2geo
+    from oracles import tm_exact as T
+    msgs = []
+    for ell in (gc.Ellipsoid(6378160.0, 298.25), gc.grs80):
+        o = T.oracle(ell.semimaj, ell.inversef)
+        user = gc.Projection(300000, 5000000, 0.9999, 2, 140.0)
+        seqs = [(gc.utm, 0, 151.2), (gc.isg, 0, 151.2), (user, 0, 151.2), (gc.utm, 0, 151.2), (gc.isg, 0, 151.2)]
+        for prj, zone, lon in seqs + seqs[::-1]:
+            lat = -33.5
+            h, z, e, n, psf, conv = geo2grid(lat, lon, zone, ell, prj)
+            la, lo, psf2, conv2 = grid2geo(z, e, n, h, ell, prj)
+            # central meridian from the inverse: the point on the central meridian has easting = false easting
+            lo_cm = grid2geo(z, float(prj.falseeast), n, h, ell, prj)[1]
+            k, c = T.scale_convergence(o, lat, lon - lo_cm, prj.cmscale)
+            if abs(psf - float(k)) > 2e-8 or abs(psf2 - float(k)) > 2e-8:
+                msgs.append('scale factor %r / %r for cmscale %r after other projections on the same ellipsoid; exact %.10f' % (psf, psf2, float(prj.cmscale), float(k)))
+    return bool(msgs), '; '.join(msgs[:3]) if msgs else 'scale factors belong to the projection of each call'
